@@ -266,9 +266,11 @@ class Source:
             raise ExtractError(f"{self.path}: expected exactly one `{kind} {name}`, found {len(found)}")
         return found[0]
 
-    def find_impl(self, regex, lo=0, hi=None):
+    def find_impl(self, regex, lo=0, hi=None, has=None):
         rx = re.compile(regex)
         found = [it for it in self.items(lo, hi) if it.kind == "impl" and rx.search(it.header_norm())]
+        if has:
+            found = [it for it in found if any(c.kind == "fn" and c.name == has for c in it.children())]
         if len(found) != 1:
             raise ExtractError(
                 f"{self.path}: expected exactly one impl matching /{regex}/, found {len(found)}: "
@@ -398,6 +400,19 @@ def rule_attrs(item, pc, keep_derive=None):
         pc.delete(s, e, "R-ATTR")
     if kept:
         pc.insert(t[item.vis_start].s, "#[derive(" + ", ".join(kept) + ")]\n", "R-ATTR", "derive filtered to " + ",".join(kept))
+    # helper attributes of dropped derives (`#[default]` on an enum variant)
+    if item.kind == "enum" and item.body_open is not None and not (kept and "Default" in kept):
+        i = item.body_open + 1
+        while i < item.body_close:
+            if t[i].text == "#":
+                j = item.src.sig(i + 1)
+                if t[j].text == "[":
+                    k = item.src.match(j)
+                    inner = "".join(x.text for x in t[j + 1:k] if x.kind not in ("ws", "comment"))
+                    if inner == "default":
+                        pc.delete(t[i].s, t[k].e, "R-ATTR", "helper attribute of the dropped derive(Default)")
+                    i = k
+            i += 1
 
 
 def rule_log(item, pc):
@@ -453,6 +468,47 @@ def rule_refpat(item, pc):
                 pc.insert(t[j].s, f"{name}__r", "R-REFPAT")
                 b = loop_body_open(src, i)
                 pc.insert(t[b].e, f" let {name} = *{name}__r;", "R-REFPAT")
+        i += 1
+
+
+def rule_clospat(item, pc, annotations=None):
+    """R-CLOSPAT: `f(|(a, b)| E)` -> `f(|p__| { let (a, b) = p__; E })` -- the language's own desugaring of an
+    irrefutable tuple pattern in a closure parameter.  Only when the closure is the last argument of a call."""
+    if item.body_open is None:
+        return
+    src, t = item.src, item.src.toks
+    i = item.body_open + 1
+    n = 0
+    while i < item.body_close:
+        if t[i].text == "|":
+            p = src.prev_sig(i)
+            j = src.sig(i + 1)
+            if t[p].text in ("(", ",") and t[j].text == "(":
+                close = src.match(j)
+                k = src.sig(close + 1)
+                if t[k].text == "|":
+                    # enclosing call paren
+                    q = p
+                    depth = 0
+                    while not (t[q].text == "(" and depth == 0):
+                        if t[q].text in CLOSE:
+                            depth += 1
+                        elif t[q].text in OPEN:
+                            depth -= 1
+                        q -= 1
+                    call_close = src.match(q)
+                    pat = src.text[t[j].s:t[close].e]
+                    if "&" in pat or "ref " in pat:
+                        raise ExtractError("R-CLOSPAT refused: reference pattern")
+                    n += 1
+                    name = f"p__{n}"
+                    pc.delete(t[j].s, t[close].e, "R-CLOSPAT")
+                    pc.insert(t[j].s, name, "R-CLOSPAT")
+                    if annotations and n in annotations:
+                        pc.insert(t[k].e, " " + annotations[n].strip() + " ", "R-SPLICE", f"closure #{n} specification")
+                    pc.insert(t[k].e, f" {{ let {pat} = {name}; ", "R-CLOSPAT")
+                    pc.insert(t[call_close].s, " }", "R-CLOSPAT")
+                    i = k
         i += 1
 
 
